@@ -8,6 +8,7 @@
 -/
 import Gedcom.Lemmas.PublishNames
 import Gedcom.Lemmas.PublishProtocol
+import Gedcom.Generated.PublishSrc
 namespace Gedcom.C19
 open Gedcom Gedcom.Publish
 
@@ -831,6 +832,130 @@ theorem names_injective_counterexample :
     ∧ individualKeys [bs!"Places"] [] = [bs!"places"]
     ∧ individualKeys [bs!"Places"] fixedKeys = [bs!"places-1"] := by
   decide +kernel
+
+/-! ## The naming rules are the source (go/ast translation, `Generated.PublishSrc`) -/
+
+section Source
+open Gedcom.PublishSrc
+
+/-- every translated piece of `sourceKey`, `isFixedPageKey`, `getUniqueKey` and
+    `indexLetterForSurname` is inside the translated fragment (no `.bad`, every shape recognised) -/
+theorem naming_source_translated :
+    Generated.sourceKeySrc.ok = true ∧ Generated.fixedSrc.ok = true
+    ∧ Generated.uniqueKeySrc.ok = true ∧ Generated.indexLetterSrc.ok = true := by decide
+
+theorem byte_lift (P : UInt8 → Prop) (h : ∀ n, n < 256 → P (UInt8.ofNat n)) (c : UInt8) : P c := by
+  have := h c.toNat (UInt8.toNat_lt c)
+  simpa using this
+
+/-- the byte rule of `sourceKey` in the source (which bytes the case keeps, `_%02x` for the
+    others) is the per-byte table the model uses, for all 256 bytes … -/
+theorem sourceKey_byte_is_the_source (c : UInt8) :
+    Generated.sourceKeySrc.byte c = Generated.sourceKeyByte.getD c.toNat [c] := by
+  refine byte_lift (fun c => Generated.sourceKeySrc.byte c = Generated.sourceKeyByte.getD c.toNat [c]) ?_ c
+  decide +kernel
+
+/-- … the rewrite of a key that names a fixed page (`_%02x%s` of `key[0]`, `key[1:]`) is
+    `escapeFirst` … -/
+theorem sourceKey_escape_is_the_source (k : Str) (hk : k ≠ []) :
+    Generated.sourceKeySrc.escape k = some (escapeFirst k) := by
+  cases k with
+  | nil => exact absurd rfl hk
+  | cons b t => simp [SourceKeySrc.escape, Generated.sourceKeySrc, fmtRun, fmtOne, hex02, escapeFirst]
+
+/-- the page names `isFixedPageKey` compares with, in source order, are the model's fixed names -/
+theorem fixed_names_are_the_source : Generated.fixedSrc.names = fixedNames := by decide +kernel
+
+theorem isFixedKey_is_the_source (k : Str) : Generated.fixedSrc.isFixed k = isFixedKey k := by
+  have hs : ([46, 104, 116, 109, 108] : Str) = html := by decide
+  unfold FixedSrc.isFixed isFixedKey
+  rw [fixed_names_are_the_source]
+  simp [Generated.fixedSrc, fmtRun, fmtOne, hs]
+
+/-- … so the model's `sourceKey` is the source's, for every pointer -/
+theorem sourceKey_is_the_source (ptr : Str) :
+    sourceKey ptr = sourceKeyOf Generated.sourceKeySrc Generated.fixedSrc ptr := by
+  have hraw : sourceKeyRaw ptr = ptr.flatMap Generated.sourceKeySrc.byte := by
+    unfold sourceKeyRaw
+    congr 1
+    funext c
+    exact (sourceKey_byte_is_the_source c).symm
+  unfold sourceKey sourceKeyOf
+  simp only [fact_escapes, Bool.true_and, ← hraw, isFixedKey_is_the_source]
+  split
+  · rename_i h
+    have hne : sourceKeyRaw ptr ≠ [] := (fact_fixed_head _ ((isFixedKey_iff _).mp h)).2
+    rw [sourceKey_escape_is_the_source _ hne]; rfl
+  · rfl
+
+/-- the numbered candidate of `getUniqueKey` (`%s-%d` of `s`, `i`, for `i > 0`) is `candidate` -/
+theorem uniqueKey_candidate_is_the_source (s : Str) (i : Nat) :
+    Generated.uniqueKeySrc.candidate s i = some (candidate s i) := by
+  unfold UniqueKeySrc.candidate candidate
+  split
+  · rfl
+  · simp [Generated.uniqueKeySrc, fmtRun, fmtOne]
+
+/-- the `continue` conditions of the probing loop, in source order: a candidate is passed over iff
+    it is an individual key, a place key, a reserved key or a fixed page key — checked for every
+    candidate, numbered ones included -/
+theorem uniqueKey_skip_is_the_source (taken places reserved : List Str) (c : Str) :
+    Generated.uniqueKeySrc.skip Generated.fixedSrc.isFixed taken places reserved c
+      = (taken.contains c || (places ++ (fixedKeys ++ reserved)).contains c) := by
+  have hf : isFixedKey c = fixedKeys.contains c := by
+    rw [Bool.eq_iff_iff, isFixedKey_iff]; simp
+  simp only [UniqueKeySrc.skip, Generated.uniqueKeySrc, List.any_cons, List.any_nil, KCond.eval,
+    isFixedKey_is_the_source, hf, Bool.or_false]
+  rw [Bool.eq_iff_iff]
+  simp only [Bool.or_eq_true, List.contains_iff_mem, List.mem_append]
+  constructor
+  · rintro (h | h | h | h)
+    · exact Or.inl h
+    · exact Or.inr (Or.inl h)
+    · exact Or.inr (Or.inr (Or.inr h))
+    · exact Or.inr (Or.inr (Or.inl h))
+  · rintro (h | h | h | h)
+    · exact Or.inl h
+    · exact Or.inr (Or.inl h)
+    · exact Or.inr (Or.inr (Or.inr h))
+    · exact Or.inr (Or.inr (Or.inl h))
+
+/-- **`getUniqueKey` is the source**: the model's search (`uniqueKey`, with the reserved keys among
+    the keys to keep off — what `names_injective` and `site_names_injective` are about) takes the
+    first candidate of the source's loop that none of its `continue` conditions passes over -/
+theorem uniqueKey_is_the_source (taken places reserved : List Str) (s : Str) :
+    uniqueKey taken (places ++ (fixedKeys ++ reserved)) s
+      = ((List.range (taken.length + (places ++ (fixedKeys ++ reserved)).length + 1)).filterMap
+          (Generated.uniqueKeySrc.candidate s)).find?
+          (fun c => !Generated.uniqueKeySrc.skip Generated.fixedSrc.isFixed taken places reserved c) := by
+  unfold uniqueKey
+  have hm : (List.range (taken.length + (places ++ (fixedKeys ++ reserved)).length + 1)).filterMap
+      (Generated.uniqueKeySrc.candidate s)
+      = (List.range (taken.length + (places ++ (fixedKeys ++ reserved)).length + 1)).map (candidate s) := by
+    rw [← List.filterMap_eq_map]
+    congr 1
+    funext i
+    exact uniqueKey_candidate_is_the_source s i
+  rw [hm]
+  congr 1
+  funext c
+  rw [uniqueKey_skip_is_the_source]
+  simp [Bool.not_or]
+
+/-- the index-letter rule of the source (`name == ""`, `name[0] < 'a'`, `name[0] > 'z'` give the
+    symbol letter, else the first byte of the lower-cased surname) is `indexLetter` -/
+theorem indexLetter_is_the_source (surname : Str) :
+    Generated.indexLetterSrc.letter (lowerFirst surname) = indexLetter surname := by
+  unfold indexLetter
+  cases lowerFirst surname with
+  | none => decide
+  | some b =>
+    simp only []
+    refine byte_lift (fun b => Generated.indexLetterSrc.letter (some b)
+      = if (b < 97 || b > 122) = true then Generated.symbolLetter else b) ?_ b
+    decide +kernel
+
+end Source
 
 /-! ## Links -/
 
